@@ -16,6 +16,8 @@ type GTx struct {
 	Kind string
 	From int
 	Tx   *types.Tx
+	Aux  string // kind-specific (name created/updated, ...)
+	AuxI int
 	// Expect is the generator's intent, never used as an oracle by itself:
 	// "ok" | "fail" (runtime error expected) | "reject" (should be skipped by the producer)
 	Expect string
@@ -102,9 +104,15 @@ func (g *Gen) Block(no uint64, n int) []*GTx {
 			"stake", "stake-small", "unstake", "votebp", "votebp-nostake", "votedao", "name", "name-dup", "name-update", "xfer-name",
 			"deploy", "call-inc", "call-pay", "call-payfail", "call-fail", "call-guarded", "call-nested", "call-default", "feedeleg", "gov-bad"}
 	}
-	for len(out) < n {
+	blocked := map[int]bool{}
+	tries := 0
+	for len(out) < n && tries < 50*n {
+		tries++
 		k := kinds[g.R.Intn(len(kinds))]
 		i := g.pick()
+		if blocked[i] {
+			continue
+		}
 		a := g.acct(i)
 		sp := TxSpec{From: a, ChainID: cid, GasPrice: big.NewInt(0)}
 		if g.W.Tmpl.Public {
@@ -195,16 +203,15 @@ func (g *Gen) Block(no uint64, n int) []*GTx {
 				nm = g.Names[g.R.Intn(len(g.Names))]
 				exp = "fail"
 			} else {
+				k = "name"
 				g.nameSeq++
 			}
 			sp.Payload = GovPayload("v1createName", nm)
 			sp.Amount = aergo(1)
 			desc = fmt.Sprintf("%s a%d %s", k, i, nm)
 			if exp == "ok" {
-				out = append(out, &GTx{Desc: desc, Kind: k, From: i, Expect: exp})
-				out[len(out)-1].Desc += " name=" + nm
 				sp.Nonce = g.next(i, pend)
-				out[len(out)-1].Tx = sp.Build()
+				out = append(out, &GTx{Desc: desc, Kind: k, From: i, Expect: exp, Aux: nm, Tx: sp.Build()})
 				continue
 			}
 		case "name-update":
@@ -217,16 +224,28 @@ func (g *Gen) Block(no uint64, n int) []*GTx {
 			if g.R.Intn(3) == 0 {
 				signer = g.pick() // maybe not the owner
 			}
+			if blocked[signer] {
+				continue
+			}
 			i, a = signer, g.acct(signer)
 			sp.From = a
-			to := g.acct(g.pick())
+			toI := g.pick()
+			to := g.acct(toI)
 			sp.Type, sp.To = types.TxType_GOVERNANCE, []byte(types.AergoName)
 			sp.Payload = GovPayload("v1updateName", nm, to.B58())
 			sp.Amount = aergo(1)
 			if signer != owner {
 				exp = "fail"
 			}
-			desc = fmt.Sprintf("name-update a%d %s -> %x (owner a%d)", signer, nm, to.Addr[:4], owner)
+			desc = fmt.Sprintf("name-update a%d %s -> a%d (owner a%d)", signer, nm, toI, owner)
+			if useNonce {
+				sp.Nonce = g.next(i, pend)
+			}
+			if exp != "ok" {
+				blocked[i] = true
+			}
+			out = append(out, &GTx{Desc: desc, Kind: k, From: i, Tx: sp.Build(), Expect: exp, Aux: nm, AuxI: toI})
+			continue
 		case "xfer-name":
 			if len(g.Names) == 0 {
 				continue
@@ -299,6 +318,9 @@ func (g *Gen) Block(no uint64, n int) []*GTx {
 		if useNonce {
 			sp.Nonce = g.next(i, pend)
 		}
+		if exp != "ok" && useNonce {
+			blocked[i] = true // outcome uncertain: no later tx of this account in the block
+		}
 		tx := sp.Build()
 		out = append(out, &GTx{Desc: desc, Kind: k, From: i, Tx: tx, Expect: exp})
 	}
@@ -331,10 +353,10 @@ func (g *Gen) Applied(cands []*GTx, included [][]byte, statuses []string) {
 		case "stake":
 			g.Staked[c.From] = true
 		case "name":
-			var nm string
-			fmt.Sscanf(c.Desc[len(c.Desc)-12:], "%s", &nm)
-			g.Names = append(g.Names, nm)
-			g.NameOwner[nm] = c.From
+			g.Names = append(g.Names, c.Aux)
+			g.NameOwner[c.Aux] = c.From
+		case "name-update":
+			g.NameOwner[c.Aux] = c.AuxI
 		case "deploy":
 			g.Contracts = append(g.Contracts, Contract{Addr: contract.CreateContractID(c.Tx.Body.Account, c.Tx.Body.Nonce), Kind: "bank", Owner: c.From})
 		}
